@@ -298,12 +298,12 @@ Lemma in_BP k e p : In (k, e) m -> In p (entry_patterns e) -> In p (bundle_patte
 Proof. intros He Hp. unfold bundle_patterns. apply in_flat_map. exists (k, e). auto. Qed.
 
 (* ---------- what is proved about each function ---------- *)
-Definition Q_pw f := forall p sc1 sc2, Rs sc1 sc2 -> G \/ ok_pattern p = true -> RR (pw1 f p sc1) (pw2 f p sc2).
+Definition Q_pw f := forall k p sc1 sc2, Rs sc1 sc2 -> G \/ ok_pattern p = true -> RR (pw1 f k p sc1) (pw2 f k p sc2).
 Definition Q_ew f := forall e sc1 sc2, Rs sc1 sc2 -> G \/ ok_expr e = true -> RR (ew1 f e sc1) (ew2 f e sc2).
 Definition Q_iw f := forall i sc1 sc2, Rs sc1 sc2 -> G \/ ok_inline i = true -> RR (iw1 f i sc1) (iw2 f i sc2).
 Definition Q_ir f := forall i sc1 sc2, Rs sc1 sc2 -> G \/ rs_inline i = true -> RV (ir1 f i sc1) (ir2 f i sc2).
-Definition Q_mt f := forall p e sc1 sc2, Rs sc1 sc2 -> G \/ ok_expr e = true -> RR (mt1 f p e sc1) (mt2 f p e sc2).
-Definition Q_tr f := forall p exp sc1 sc2, Rs sc1 sc2 -> G \/ ok_pattern p = true -> RR (tr1 f p exp sc1) (tr2 f p exp sc2).
+Definition Q_mt f := forall k p e sc1 sc2, Rs sc1 sc2 -> G \/ ok_expr e = true -> RR (mt1 f k p e sc1) (mt2 f k p e sc2).
+Definition Q_tr f := forall k p exp sc1 sc2, Rs sc1 sc2 -> G \/ ok_pattern p = true -> RR (tr1 f k p exp sc1) (tr2 f k p exp sc2).
 Definition Q_ga f := forall oa sc1 sc2, Rs sc1 sc2 -> G \/ rs_oargs oa = true -> RA (ga1 f oa sc1) (ga2 f oa sc2).
 Definition Q_all f := Q_pw f /\ Q_ew f /\ Q_iw f /\ Q_ir f /\ Q_mt f /\ Q_tr f /\ Q_ga f.
 
@@ -317,11 +317,11 @@ Proof.
 Qed.
 
 (* ---------- loops ---------- *)
-Lemma pattern_loop_rel f p len :
+Lemma pattern_loop_rel f k p len :
   Q_mt f ->
   forall els sc1 sc2, Rs sc1 sc2 -> G \/ forallb ok_element els = true ->
-  RR (pattern_loop overflow_checks transform b1 (mt1 f p) len els sc1)
-     (pattern_loop overflow_checks transform b2 (mt2 f p) len els sc2).
+  RR (pattern_loop overflow_checks transform b1 (mt1 f k p) len els sc1)
+     (pattern_loop overflow_checks transform b2 (mt2 f k p) len els sc2).
 Proof.
   intros Hmt. induction els as [|elem rest IH]; intros sc1 sc2 R Hok; cbn [pattern_loop].
   - apply RR_done; [apply Ro_nil | exact R].
@@ -389,19 +389,19 @@ Qed.
 (* ---------- steps ---------- *)
 Lemma sim_pw f : Q_mt f -> Q_pw (S f).
 Proof.
-  intros Hmt p sc1 sc2 R Hok. rewrite !pw_S.
+  intros Hmt k p sc1 sc2 R Hok. rewrite !pw_S.
   apply pattern_loop_rel; [exact Hmt | exact R|].
   destruct p as [els]. exact Hok.
 Qed.
 
 Lemma sim_mt f : Q_ew f -> Q_mt (S f).
 Proof.
-  intros Hew p e sc1 sc2 R Hok. rewrite !mt_S. cbv zeta.
+  intros Hew k p e sc1 sc2 R Hok. rewrite !mt_S. cbv zeta.
   destruct (Rs_fields _ _ R) as (Ep & Ed & Et & El & Ee & Ec).
   rewrite <- Et.
   eapply rel_bind.
   { apply Hew; [|exact Hok].
-    destruct (sc_travelled sc1); [apply (Rs_update _ _ _ (pu_set_travelled [p]) R) | exact R]. }
+    destruct (sc_travelled sc1); [apply (Rs_update _ _ _ (pu_set_travelled [k]) R) | exact R]. }
   intros [o1 s1] [o2 s2] [Ho Hs]. cbn [fst snd] in *.
   destruct (Rs_fields _ _ Hs) as (_ & Ed' & _). rewrite <- Ed'.
   destruct (sc_dirty s1); apply RR_done; try assumption.
@@ -410,12 +410,12 @@ Qed.
 
 Lemma sim_tr f : Q_pw f -> Q_tr (S f).
 Proof.
-  intros Hpw p exp sc1 sc2 R Hok. rewrite !tr_S.
+  intros Hpw k p exp sc1 sc2 R Hok. rewrite !tr_S.
   destruct (Rs_fields _ _ R) as (Ep & Ed & Et & El & Ee & Ec).
-  rewrite <- Et. destruct (pattern_mem p (sc_travelled sc1)).
+  rewrite <- Et. destruct (key_mem k (sc_travelled sc1)).
   - apply RR_done; [apply Ro_refl | apply (Rs_update _ _ _ (pu_add_error Cyclic) R)].
   - cbv zeta. eapply rel_bind.
-    { apply Hpw; [apply (Rs_update _ _ _ (pu_set_travelled (p :: sc_travelled sc1)) R) | exact Hok]. }
+    { apply Hpw; [apply (Rs_update _ _ _ (pu_set_travelled (Some k :: sc_travelled sc1)) R) | exact Hok]. }
     intros [o1 s1] [o2 s2] [Ho Hs]. cbn [fst snd] in *.
     destruct (Rs_fields _ _ Hs) as (_ & _ & Et' & _). rewrite <- Et'.
     apply RR_done; [exact Ho | apply (Rs_update _ _ _ (pu_set_travelled _) Hs)].
@@ -440,7 +440,7 @@ Proof.
   cbn [ok_expr] in Hok. apply or_G_and in Hok as [Hok1 Hok2].
   eapply rel_bind; [apply Hir; assumption|].
   intros [v1 s1] [v2 s2] [Ev Hs]. cbn [fst snd] in *. subst v2.
-  assert (Hvar : forall p k d s1' s2', In (Variant k p d) variants -> Rs s1' s2' -> RR (pw1 f p s1') (pw2 f p s2')).
+  assert (Hvar : forall p k d s1' s2', In (Variant k p d) variants -> Rs s1' s2' -> RR (pw1 f None p s1') (pw2 f None p s2')).
   { intros p k d s1' s2' Hin Hs'. apply Hpw; [exact Hs'|].
     destruct Hok2 as [g|H]; [left; exact g | right].
     rewrite forallb_forall in H. apply (H _ Hin). }
